@@ -160,6 +160,19 @@ class CallGraph:
                     out.append(b.defp)
         if name == "fmt" and tr in ("std::fmt::Display", "std::fmt::Debug") and g:
             out += impls("fmt", g[0], tr)
+        # format_args!: `Argument::new_display::<T>(&x)` stores <T as Display>::fmt, which write!/format! then calls
+        if name.startswith("new_") and "fmt::rt::Argument" in callee["path"] and g:
+            trn = {"new_display": "std::fmt::Display", "new_debug": "std::fmt::Debug", "new_lower_hex": "std::fmt::LowerHex",
+                   "new_upper_hex": "std::fmt::UpperHex"}.get(name)
+            if trn:
+                t0 = g[-1]
+                while t0.startswith("&"):
+                    t0 = t0[1:].lstrip()
+                    if t0.startswith("'"):
+                        t0 = t0.split(" ", 1)[1] if " " in t0 else t0
+                    if t0.startswith("mut "):
+                        t0 = t0[4:]
+                out += impls("fmt", t0, trn)
         if callee["crate"] in ("serde_json", "serde", "serde_core"):
             # serde entry points: every local Serialize / Deserialize impl of a type named in the generic args
             n = name.lower()
